@@ -177,6 +177,25 @@ def _():
     finally:
         shutil.rmtree(d, ignore_errors=True)
 
+@w("D39")
+def _():
+    for s in ["'a' IN", "'a' Not In", "'a' not\tin"]:
+        try: GC(s)
+        except KeyError: return False
+        except ValueError: pass
+    return str(GC("'a' IN")) == "'a' in"
+
+@w("D21")
+def _():
+    from poetry.core.factory import Factory
+    for data in ({"project": "x"}, {"tool": 3}, {"tool": {"poetry": []}}, {"project": [], "tool": {"poetry": {}}}):
+        try:
+            r = Factory.validate(data)
+        except (AttributeError, TypeError):
+            return False
+        if not r["errors"]: return False
+    return True
+
 if __name__ == "__main__":
     ids = sys.argv[1:] or list(W)
     bad = 0
